@@ -231,6 +231,7 @@ Section Caches.
   Record lanelet := { l_id : Z; l_verts : verts W; l_poly : ring W;      (* _polygon: always filled *)
                       l_dist : option (dists W); l_inner : option (dists W) }.
   Inductive lop := LMove (m : motion W) | LConv2d
+                 | LSetVerts (v : verts W)     (* left_vertices / right_vertices / center_vertices setters (fix 5260073) *)
                  | LQPoly | LQDist | LQInner | LQInterp (x : qarg W) | LQContains (x : qarg W).
   Inductive lres := LRUnit | LRRing (r : ring W) | LRDists (d : dists W) | LRAns (a : ans W).
 
@@ -258,6 +259,7 @@ Section Caches.
     match o with
     | LMove m => (l_set_verts l (move_verts W m (l_verts l)), LRUnit)
     | LConv2d => (l_set_verts l (to2d W (l_verts l)), LRUnit)
+    | LSetVerts v => (l_set_verts l v, LRUnit)
     | LQPoly => (l, LRRing (l_poly l))
     | LQDist => let (l', d) := l_fill_dist l in (l', LRDists d)
     | LQInner => let (l', d) := l_fill_inner l in (l', LRDists d)
@@ -268,7 +270,7 @@ Section Caches.
     l_poly l = poly_of W (l_verts l) /\
     (forall d, l_dist l = Some d -> d = dist_of W (l_verts l)) /\
     (forall d, l_inner l = Some d -> d = inner_of W (l_verts l)).
-  Definition l_is_query (o : lop) : bool := match o with LMove _ | LConv2d => false | _ => true end.
+  Definition l_is_query (o : lop) : bool := match o with LMove _ | LConv2d | LSetVerts _ => false | _ => true end.
 
   (* ================================================================ TrafficLightCycle (and the light holding it) *)
   Record cycle := { c_elems : list (colour W * Z); c_off : Z; c_active : bool; c_cum : option (cum W) }.
